@@ -617,6 +617,7 @@ class Group:
         self.succeeded = set()
         self.failed = False            # any child failed at begin / by receipt, or the group timed out
         self.failed_at = None
+        self.failed_by = None          # "begin-failure" | "failure-receipt" | "timeout"
         self.deadline = None
         self.finished = False          # all declared children succeeded
 
@@ -636,6 +637,14 @@ def _group_of(tx):
 
 
 def mon_c05(h, obs):
+    return [x for x in mon_groups(h, obs) if x.fp.startswith("C05/")]
+
+
+def mon_c06_groups(h, obs):
+    return [x for x in mon_groups(h, obs) if x.fp.startswith("C06/")]
+
+
+def mon_groups(h, obs):
     hits = []
     groups = {}        # key -> Group
     of_child = {}      # child id -> group key
@@ -669,7 +678,7 @@ def mon_c05(h, obs):
                     g.begun.add(tx.id)
                     of_child[tx.id] = key
                     if rc.ret == "begin_failure" and not g.failed:
-                        g.failed, g.failed_at = True, b.h
+                        g.failed, g.failed_at, g.failed_by = True, b.h, "begin-failure"
                         _check_notified(hits, b, g, tx.id, "begin-failure")
                 elif tx.typ in ("ok", "fail") and tx.id in of_child:
                     g = groups[of_child[tx.id]]
@@ -678,11 +687,23 @@ def mon_c05(h, obs):
                         if g.succeeded == g.decl:
                             g.finished = True
                     elif tx.typ == "fail" and not g.failed and not g.finished:
-                        g.failed, g.failed_at = True, b.h
+                        g.failed, g.failed_at, g.failed_by = True, b.h, "failure-receipt"
                         _check_notified(hits, b, g, tx.id, "failure-receipt")
             for key, g in groups.items():
+                # the group as a whole: never listed as timed out once it has failed or finished, nor before its deadline
+                due = g.deadline == b.h and not g.failed and not g.finished
+                if not due:
+                    # only children that were begun under THIS group (declared ids can also occur as one-to-one requests or
+                    # in another group of the same source)
+                    listed_kids = sorted({c for ids in b.timeout.values() for c in ids
+                                          if of_child.get(c) == key and c in g.begun and c not in ambiguous and c not in plain})
+                    if listed_kids:
+                        why = (f"after-{g.failed_by}" if g.failed else ("after-success" if g.finished else "off-deadline"))
+                        hits.append(Hit(f"C06/group-listed-as-timed-out/{why}",
+                                        f"children {listed_kids} of the group of {key[0]} are listed as timed out in block {b.h}, but the group "
+                                        f"{'failed in block ' + str(g.failed_at) + ' (' + str(g.failed_by) + ')' if g.failed else ('finished' if g.finished else 'is due at ' + str(g.deadline))}", detail=b.raw))
                 if g.deadline == b.h and not g.failed and not g.finished:
-                    g.failed, g.failed_at = True, b.h
+                    g.failed, g.failed_at, g.failed_by = True, b.h, "timeout"
                     src = key[0].split(":")[0]
                     listed = set(b.timeout.get(src, []))
                     missing = sorted(c for c in g.begun if c not in listed)
@@ -715,6 +736,9 @@ def mon_c05(h, obs):
                 if stuck:
                     hits.append(Hit("C05/child-not-moved-to-failure", f"the group of {g.frm} failed in block {g.failed_at} but its children {stuck} are still BEGIN/SUCCESS "
                                     f"({', '.join(f'{c}={kids[c]}' for c in stuck)})", detail=st[3]))
+                if gstate == 2 and g.failed_by in ("begin-failure", "failure-receipt"):
+                    hits.append(Hit("C06/failed-group-altered-by-timeout", f"the group of {g.frm} failed in block {g.failed_at} ({g.failed_by}), yet its global status is "
+                                    f"BEGIN_ROLLBACK: the timeout mechanism moved it", detail=st[3]))
                 if gstate in (0, 3):
                     hits.append(Hit("C05/global-not-moved-to-failure", f"the group of {g.frm} failed in block {g.failed_at} but its global status is {gstate}", detail=st[3]))
             if gstate == 3 and set(c for c, v in kids.items() if v == 3) != g.decl:
